@@ -268,7 +268,32 @@ func initAccumSources() {
 	}
 }
 
+// halfKnownGlobals: message numbers the decoder does not treat as known although
+// some generated table has an entry for them (a constructor, a struct type).
+var halfKnown []uint16
+var halfKnownDone bool
+
+func halfKnownGlobals() []uint16 {
+	if !halfKnownDone {
+		halfKnownDone = true
+		for mn := 0; mn < 1024; mn++ {
+			if prof.Known(uint16(mn)) {
+				continue
+			}
+			_, a := fit.VerifNewMesg(uint16(mn))
+			_, b := fit.VerifMesgType(uint16(mn))
+			if a || b {
+				halfKnown = append(halfKnown, uint16(mn))
+			}
+		}
+	}
+	return halfKnown
+}
+
 func unknownGlobal(r *Rng) uint16 {
+	if hk := halfKnownGlobals(); len(hk) > 0 && r.Chance(1, 6) {
+		return hk[r.Intn(len(hk))]
+	}
 	for {
 		var g uint16
 		switch r.Intn(4) {
